@@ -10,3 +10,4 @@ import SamVerif.Props.C19
 import SamVerif.Props.C14
 import SamVerif.Props.C15
 import SamVerif.Props.C06
+import SamVerif.Props.C05
